@@ -200,6 +200,19 @@ def pair_space(rng, names, tier):
     return items
 
 
+def recursion_space(names):
+    """a template that includes itself, reached through an argument of every registered name (colon and pipe form, first and
+    second argument), with the same recursion before and after it on the page: whatever a function does with an argument that
+    hit the nesting limit, the rest of the expansion goes on and ends in a string."""
+    plain = sorted({n for lang, n in names if lang == "en"} or {n for _, n in names})
+    items = []
+    for a in plain:
+        for call in ("{{%s|{{loop}}}}", "{{%s:{{loop}}}}", "{{%s|x|{{loop}}}}", "{{%s:x|{{tq2|y}}|1|2}}"):
+            c = call % a
+            items += [("en", "x" + c + "y{{loop}}z"), ("en", "{{loop}}" + c + c + "{{tq2|v}} w")]
+    return items
+
+
 def expr_space(rng, tier):
     from mwlib.parser import expr
 
@@ -500,6 +513,7 @@ def run(chk: common.Check):
     eitems, ops = expr_space(rng, tier)
     items += eitems
     items += pair_space(rng, names, tier)
+    items += recursion_space(names)
     items += time_space()
     fz = fuzz_space(rng, 60000 if tier == "thorough" else 6000, names)
     items += fz
@@ -512,6 +526,7 @@ def run(chk: common.Check):
         "rule": "search: every registered name (resolver methods, dummy words, node classes; lower and upper case) x argument count 0..3 x "
                 f"{len(SHAPES)} argument shapes (quick: all shapes for 0..1 arguments, every shape in every position for 2..3; thorough: full "
                 "product for 2, 300 sampled triples for 3) in colon and pipe form; site aliases of all bundled sites (quick: 400 sampled); "
+                "a self-including template reached through an argument of every registered name, with the same recursion before and after it; "
                 f"#expr: every operator of expr.py x {len(NUMS)} number shapes (unary, binary, #ifexpr); raw fuzz over the template alphabet. "
                 "correspondence: universes of 1-4 templates over words/numbers, positional/named/duplicate arguments, defaults, #if/#ifeq/"
                 "#switch, list markers, unbalanced braces, all call graphs incl. cycles, limits 2..100. non-trivial = distinct inputs",
